@@ -24,9 +24,11 @@ VARIABLES u,      \* spendable outputs [o, owner, amt, bh, kind]   (amt: limb tr
           spent,  \* outputs that existed and were consumed (incl. rebroadcast originals)
           pool,   \* pooled transactions (records)
           nbad,
-          hist    \* scenario steps
+          hist,   \* scenario steps
+          tipl,   \* label of the current tip block
+          prev    \* snapshot taken before the last accepted block (for forks): [ok, u, h, spent, tipl]
 
-vars == <<u, h, n, spent, pool, nbad, hist>>
+vars == <<u, h, n, spent, pool, nbad, hist, tipl, prev>>
 
 L(a) == <<0, 0, a>>
 Amt(x) == x.amt[3]
@@ -46,7 +48,7 @@ Spend(k, x, to, a) ==
                 ELSE <<[o |-> OutName(k, 1), owner |-> to, amt |-> L(a), kind |-> KNormal],
                        [o |-> OutName(k, 2), owner |-> x.owner, amt |-> L(Amt(x) - a), kind |-> KNormal]>>
     IN [id |-> TxId(k), type |-> TNormal, auto |-> FALSE, signer |-> x.owner, sigok |-> TRUE,
-        ins |-> <<x>>, outs |-> outs, hops |-> <<>>, pathok |-> TRUE, edit |-> ""]
+        ins |-> <<x>>, outs |-> outs, hops |-> <<>>, pathok |-> TRUE, edit |-> "", base |-> x.o]
 
 Splits(x) == IF Amt(x) >= 2 THEN {Amt(x), Amt(x) \div 2} ELSE {Amt(x)}
 
@@ -58,7 +60,7 @@ AtrTx(x, hh) ==
     [id |-> "", type |-> TATR, auto |-> TRUE, signer |-> "", sigok |-> TRUE,
      ins |-> <<x>>,
      outs |-> <<[o |-> AtrName(x, hh), owner |-> x.owner, amt |-> x.amt, kind |-> KATR]>>,
-     hops |-> <<>>, pathok |-> TRUE, edit |-> ""]
+     hops |-> <<>>, pathok |-> TRUE, edit |-> "", base |-> x.o]
 Rebroadcast(v, hh) ==
     LET leaving == Leaving(v, hh, G) IN
     {x \in v : x \notin leaving}
@@ -67,7 +69,8 @@ Rebroadcast(v, hh) ==
 (* the adversary's view of a transaction after an edit (what the rules see) *)
 Other(k) == CHOOSE x \in Keys : x # k
 Edited(t, e, extra) ==
-    CASE e \in {"forge_sig", "no_sig", "flip_sig", "tamper_output"} -> [t EXCEPT !.sigok = FALSE, !.edit = e]
+    CASE e \in {"forge_sig", "no_sig", "flip_sig", "tamper_output", "zero_lead_foreign"} ->
+             [t EXCEPT !.sigok = FALSE, !.edit = e]
       [] e = "type_fee" -> [t EXCEPT !.type = TFee, !.edit = e]
       [] e = "type_atr" -> [t EXCEPT !.type = TATR, !.edit = e]
       [] e = "type_issuance" -> [t EXCEPT !.type = TIssuance, !.edit = e]
@@ -89,7 +92,7 @@ Edited(t, e, extra) ==
 Desc(t) ==
     LET e == t.edit
         (* structural edits are re-applied by the harness on the honestly built transaction *)
-        base_ins == IF e \in {"dup_input", "inflate_input", "phantom_input"} THEN <<t.ins[1].o>>
+        base_ins == IF e \in {"dup_input", "inflate_input", "phantom_input"} THEN <<t.base>>
                     ELSE [i \in DOMAIN t.ins |-> t.ins[i].o]
         base_outs == IF e = "wrap_outputs" THEN SubSeq(t.outs, 1, Len(t.outs) - 2) ELSE t.outs
     IN [id |-> t.id, signer |-> t.signer,
@@ -101,6 +104,7 @@ Desc(t) ==
 
 Init ==
     /\ u = Genesis /\ h = 1 /\ n = 1 /\ spent = {} /\ pool = {} /\ nbad = 0 /\ hist = <<>>
+    /\ tipl = "b1" /\ prev = [ok |-> FALSE, u |-> {}, h |-> 0, spent |-> {}, tipl |-> ""]
 
 (* after every accepted block the pool drops what no longer validates (remove_block_transactions) *)
 Prune(pl, v, hh) == {q \in pl : q.ins[1].o \in Names(v) /\ InWindow(q.ins[1].bh, hh + 1, G)}
@@ -120,25 +124,13 @@ GoodBlock ==
                 /\ n' = n + 1
                 /\ pool' = Prune(pool, Rebroadcast(v, h + 1), h + 1)
     /\ h' = h + 1
+    /\ tipl' = "b" \o ToString(h + 1)
+    /\ prev' = [ok |-> TRUE, u |-> u, h |-> h, spent |-> spent, tipl |-> tipl]
     /\ UNCHANGED <<nbad>>
 
-(* two honest transactions in one block, the second spending an output of the first *)
-ChainedBlock ==
-    /\ h < MaxH
-    /\ \E x \in Spendable(h + 1), to \in Keys :
-          LET t1 == Spend(n, x, to, Amt(x))
-              y == [o |-> OutName(n, 1), owner |-> to, amt |-> x.amt, bh |-> h + 1, kind |-> KNormal]
-              t2 == Spend(n + 1, y, Other(to), Amt(y))
-              v == ApplyTx(ApplyTx(u, t1, h + 1), t2, h + 1)
-          IN /\ x.o \notin {p.ins[1].o : p \in pool}
-             /\ u' = Rebroadcast(v, h + 1)
-             /\ spent' = spent \cup {x, y} \cup Leaving(v, h + 1, G)
-             /\ hist' = Append(hist, [op |-> "block", label |-> "b" \o ToString(h + 1), gt |-> (h + 1 >= 3),
-                                     txs |-> <<Desc(t1), Desc(t2)>>, tag |-> "chained"])
-             /\ n' = n + 2
-             /\ pool' = Prune(pool, Rebroadcast(v, h + 1), h + 1)
-    /\ h' = h + 1
-    /\ UNCHANGED <<nbad>>
+(* (A transaction spending an output created earlier in the same block is not supported by *)
+(* the node - transactions are validated against the ledger as it was before the block -   *)
+(* so the honest producer never does it.)                                                  *)
 
 (* ---- adversarial blocks: expected to be rejected, the ledger does not move --------- *)
 Extras(e, x) == IF e = "foreign_input" THEN {z \in Spendable(h + 1) : z.owner # x.owner}
@@ -155,7 +147,18 @@ BadBlock ==
                                   tag |-> "bad:" \o (IF t.edit = "" THEN e ELSE t.edit)])
           /\ TxViolations(u, t, h + 1, G) # {}     \* the catalogue really breaks a rule
     /\ nbad' = nbad + 1 /\ n' = n + 1
-    /\ UNCHANGED <<u, h, spent, pool>>
+    /\ UNCHANGED <<u, h, spent, pool, tipl, prev>>
+
+(* a user transaction spending an output that this very block has to rebroadcast *)
+BadLeaving ==
+    /\ h < MaxH /\ nbad < MaxBad
+    /\ \E x \in Leaving(u, h + 1, G) :
+          LET t == Spend(n, x, x.owner, Amt(x)) IN
+          /\ TxViolations(u, t, h + 1, G) # {}
+          /\ hist' = Append(hist, [op |-> "block", label |-> "x" \o ToString(Len(hist) + 1), gt |-> (h + 1 >= 3),
+                                  txs |-> <<Desc(t)>>, tag |-> "bad:leaving_input"])
+    /\ nbad' = nbad + 1 /\ n' = n + 1
+    /\ UNCHANGED <<u, h, spent, pool, tipl, prev>>
 
 (* the same output spent by two transactions of one block *)
 DoubleSpendBlock ==
@@ -167,7 +170,7 @@ DoubleSpendBlock ==
                                      txs |-> <<Desc(t1), Desc(t2)>>, tag |-> "bad:double_spend_in_block"])
              /\ BlockViolations(u, <<t1, t2>>, h + 1, G) # {}
     /\ nbad' = nbad + 1 /\ n' = n + 2
-    /\ UNCHANGED <<u, h, spent, pool>>
+    /\ UNCHANGED <<u, h, spent, pool, tipl, prev>>
 
 (* ---- pool ---------------------------------------------------------------------------- *)
 SubmitGood ==
@@ -178,7 +181,21 @@ SubmitGood ==
           /\ pool' = pool \cup {t}
           /\ hist' = Append(hist, [op |-> "submit", tx |-> Desc(t), tag |-> "good"])
     /\ n' = n + 1
-    /\ UNCHANGED <<u, h, spent, nbad>>
+    /\ UNCHANGED <<u, h, spent, nbad, tipl, prev>>
+
+(* a two-input transaction whose first input is free and whose second one is spent by a    *)
+(* pooled transaction: refused, and the free input must stay spendable                     *)
+SubmitPartialConflict ==
+    /\ PoolOps /\ nbad < MaxBad
+    /\ \E p \in pool : \E x \in Spendable(h + 1) :
+          /\ x.owner = p.ins[1].owner /\ x.o \notin {r.ins[1].o : r \in pool}
+          /\ LET t == [Spend(n, x, x.owner, Amt(x)) EXCEPT
+                        !.ins = <<x, p.ins[1]>>,
+                        !.outs = <<[o |-> OutName(n, 1), owner |-> x.owner,
+                                    amt |-> L(Amt(x) + Amt(p.ins[1])), kind |-> KNormal]>>]
+             IN hist' = Append(hist, [op |-> "submit", tx |-> Desc(t), tag |-> "bad:partial_conflict"])
+    /\ n' = n + 1 /\ nbad' = nbad + 1
+    /\ UNCHANGED <<u, h, spent, pool, tipl, prev>>
 
 SubmitConflict ==   \* spends an output an already pooled transaction spends: refused
     /\ PoolOps /\ nbad < MaxBad
@@ -186,7 +203,7 @@ SubmitConflict ==   \* spends an output an already pooled transaction spends: re
           LET t == Spend(n, p.ins[1], Other(p.ins[1].owner), Amt(p.ins[1])) IN
           hist' = Append(hist, [op |-> "submit", tx |-> Desc(t), tag |-> "bad:conflict"])
     /\ n' = n + 1 /\ nbad' = nbad + 1
-    /\ UNCHANGED <<u, h, spent, pool>>
+    /\ UNCHANGED <<u, h, spent, pool, tipl, prev>>
 
 SubmitBad ==
     /\ PoolOps /\ nbad < MaxBad
@@ -195,7 +212,7 @@ SubmitBad ==
           /\ hist' = Append(hist, [op |-> "submit", tx |-> Desc(t),
                                   tag |-> "bad:" \o (IF t.edit = "" THEN e ELSE t.edit)])
     /\ n' = n + 1 /\ nbad' = nbad + 1
-    /\ UNCHANGED <<u, h, spent, pool>>
+    /\ UNCHANGED <<u, h, spent, pool, tipl, prev>>
 
 (* a block from a peer confirming one pooled transaction *)
 ConfirmPooled ==
@@ -209,10 +226,38 @@ ConfirmPooled ==
           /\ hist' = Append(hist, [op |-> "block", label |-> "b" \o ToString(h + 1), gt |-> (h + 1 >= 3),
                                   txs |-> <<Desc(p)>>, tag |-> "confirm"])
     /\ h' = h + 1
+    /\ tipl' = "b" \o ToString(h + 1)
+    /\ prev' = [ok |-> TRUE, u |-> u, h |-> h, spent |-> spent, tipl |-> tipl]
     /\ UNCHANGED <<n, nbad>>
 
-Next == GoodBlock \/ ChainedBlock \/ BadBlock \/ DoubleSpendBlock \/ SubmitGood \/ SubmitConflict
-        \/ SubmitBad \/ ConfirmPooled
+(* a competing branch of two blocks built on the parent of the tip: the node reorganises, *)
+(* the outputs created by the unwound tip disappear, its inputs come back                 *)
+ForkBlocks ==
+    /\ prev.ok /\ h < MaxH
+    /\ \E x1 \in {z \in prev.u : InWindow(z.bh, h, G)}, to \in Keys :
+          LET t1 == Spend(n, x1, to, Amt(x1))
+              v1 == Rebroadcast(ApplyTx(prev.u, t1, h), h)
+          IN \E x2 \in {z \in v1 : InWindow(z.bh, h + 1, G)} :
+             LET t2 == Spend(n + 1, x2, Other(x2.owner), Amt(x2))
+                 w2 == ApplyTx(v1, t2, h + 1)
+                 v2 == Rebroadcast(w2, h + 1)
+                 l1 == "s" \o ToString(Len(hist) + 1)
+                 l2 == "s" \o ToString(Len(hist) + 2)
+             IN /\ u' = v2
+                /\ spent' = prev.spent \cup {x1, x2} \cup Leaving(ApplyTx(prev.u, t1, h), h, G)
+                                \cup Leaving(w2, h + 1, G)
+                /\ pool' = Prune(pool, v2, h + 1)
+                /\ hist' = hist \o <<[op |-> "block", label |-> l1, parent |-> prev.tipl, gt |-> (h >= 3),
+                                      txs |-> <<Desc(t1)>>, tag |-> "fork"],
+                                     [op |-> "block", label |-> l2, parent |-> l1, gt |-> (h + 1 >= 3),
+                                      txs |-> <<Desc(t2)>>, tag |-> "fork"]>>
+                /\ tipl' = l2
+    /\ h' = h + 1 /\ n' = n + 2
+    /\ prev' = [prev EXCEPT !.ok = FALSE]
+    /\ UNCHANGED <<nbad>>
+
+Next == GoodBlock \/ BadLeaving \/ BadBlock \/ DoubleSpendBlock \/ SubmitGood \/ SubmitConflict
+        \/ SubmitBad \/ ConfirmPooled \/ SubmitPartialConflict \/ ForkBlocks
 
 Spec == Init /\ [][Next]_vars
 
